@@ -394,6 +394,7 @@ class Session:
         self._step_actions = {}
         self.task_errors = []
         self.status_mode = "plain"       # plain | raise | slow
+        self.callback_exits = []         # (virtual time, loop step, index) at which each receive callback invocation ended
         self.receive_behaviour = None    # callable(index) -> None | "raise" | float seconds
         self.errors = []
         self.loop.step_hooks.append(self._on_step)
@@ -470,10 +471,22 @@ class Session:
             i = len(self.received)
             self.received.append((self.loop.time(), msg))
             b = self.receive_behaviour(i) if self.receive_behaviour else None
-            if b == "raise":
-                raise injected_failure(i, "receive callback failure (injected)")
-            if isinstance(b, (int, float)) and b > 0:
-                await asyncio.sleep(b)
+            try:
+                if b == "raise":
+                    raise injected_failure(i, "receive callback failure (injected)")
+                if b == "nested":
+                    # an application that fans the message out to sub-tasks and waits for them (a cancellation of the callback takes a
+                    # few loop iterations - no time - to travel down to the sub-tasks and back)
+                    async def leaf():
+                        await asyncio.sleep(1.5)
+
+                    async def mid():
+                        await asyncio.gather(leaf(), leaf())
+                    await asyncio.gather(mid(), mid())
+                if isinstance(b, (int, float)) and b > 0:
+                    await asyncio.sleep(b)
+            finally:
+                self.callback_exits.append((self.loop.time(), self.loop.steps, i))
 
         if self.status_mode != "none":
             c.set_status_callback(on_status)        # ("none": the application does not register a status callback at all)
